@@ -193,3 +193,38 @@ Proof.
   - apply corr_tab_holds. unfold corr_tab. cbn [t_blk t_lag t_acorr t_lagm t_toep].
     rewrite <- gen_acorr_eq, <- gen_lag_matrix_eq, <- gen_toeplitz_eq. cbn [option_map]. exact H.
 Qed.
+
+(* ------------------------------------------------------------------ call histories *)
+(* the specification of a history is per call: a call is judged on its own block contents only *)
+Lemma hist_calls_independent c1 c2 :
+  corr_hist (c1 ++ c2) = corr_hist c1 && corr_hist c2 /\
+  holds_hist (c1 ++ c2) = holds_hist c1 && holds_hist c2.
+Proof. unfold corr_hist, holds_hist. rewrite !forallb_app. split; reflexivity. Qed.
+
+Lemma corr_step_holds s : corr_step s = true -> holds_step s = true.
+Proof.
+  unfold corr_step, holds_step. destruct s as [f x ord o]. cbn [h_fn h_blk h_order h_obs]. cbv zeta.
+  destruct f; destruct o as [o|l|t]; try discriminate.
+  - apply corr_kac_holds.
+  - apply corr_kcv_holds.
+  - apply corr_lev_holds.
+  - intro H. apply list_Qc_eqb_eq in H. apply list_Qc_eqb_eq. rewrite H. apply acorr_is_sum.
+  - intro H. destruct t as [t|e].
+    + apply tobs_eqb_ok in H. apply tab_eqb_eq. destruct ord as [m|].
+      * rewrite lag_matrix_is_sum in H. destruct (List.length x <=? m)%nat; [discriminate|].
+        inversion H. replace (S m - 1)%nat with m by lia. reflexivity.
+      * rewrite lag_matrix_none_is_sum in H. inversion H. reflexivity.
+    + apply tobs_eqb_err in H as [e' H]. destruct ord as [m|].
+      * rewrite lag_matrix_is_sum in H. destruct (List.length x <=? m)%nat eqn:E; [|discriminate].
+        apply Nat.leb_le in E. apply Nat.ltb_lt. lia.
+      * rewrite lag_matrix_none_is_sum in H. discriminate.
+  - destruct t as [t|e]; [|discriminate]. intro H. apply tab_eqb_eq in H. apply tab_eqb_eq.
+    rewrite H. apply toeplitz_is_table.
+  - reflexivity.
+  - reflexivity.
+Qed.
+
+Lemma corr_hist_holds c : corr_hist c = true -> holds_hist c = true.
+Proof.
+  unfold corr_hist, holds_hist. rewrite !forallb_forall. intros H s Hs. apply corr_step_holds. apply H. exact Hs.
+Qed.
